@@ -27,6 +27,7 @@ check vs. hasbarrier; final store vs. a plain Python sequential evaluation of th
 import itertools
 import os
 import shutil
+import sys
 
 from . import core
 from .core import natlit, boollit
@@ -168,15 +169,41 @@ Definition chk_su (p : jprog) (r : sobs) : bool :=
   | None, None => true
   | _, _ => false
   end.
-Definition chk_exec (c : jprog * list eobs * list lobs * list sobs) : bool :=
-  let '(p, runs, lruns, sruns) := c in
+(* jug execute while another process removes results before some loads: start store, what disappears before
+   load 1, 2, ..., final store, number of loads *)
+Definition robs := (store * list (list tid) * store * nat)%type.
+Definition chk_rrun (p : jprog) (r : robs) : bool :=
+  let '(st0, rms, fin, loads) := r in
+  let '(stF, exs) := run_phases_rm rms 14 st0 p in store_eqb stF fin && Nat.eqb (List.length exs) loads.
+(* a project whose jugfile selects its store itself, driven through the command line: after each command the exit
+   code / counts it reported and the store the jugfile points to *)
+Inductive cli := CCheck (code : nat) | CStatus (nc ni : nat) | CSleepUntil (exited : bool) | CExecute | CCleanup
+               | CInvalidate (removed : list tid).
+Fixpoint run_cli (p : jprog) (st : store) (steps : list (cli * store)) : bool :=
+  match steps with
+  | [] => true
+  | (c, sto) :: r =>
+      let l := load st p in
+      let nc := List.length (filter (fun t => stored st (tid_of t)) (l_tasks l)) in
+      match c with
+      | CCheck code => Nat.eqb (check st p) code && store_eqb st sto && run_cli p sto r
+      | CStatus a b => Nat.eqb nc a && Nat.eqb (List.length (l_tasks l) - nc) b && store_eqb st sto && run_cli p sto r
+      | CSleepUntil ex => Bool.eqb (negb (l_hasbarrier l) && Nat.eqb (check st p) 0) ex && store_eqb st sto && run_cli p sto r
+      | CExecute => store_eqb (fst (run_phases 14 st p)) sto && run_cli p sto r
+      | CCleanup => store_eqb (cleanup st p) sto && run_cli p sto r
+      | CInvalidate ks => store_eqb (remove_keys ks st) sto && run_cli p sto r
+      end
+  end.
+Definition chk_exec (c : jprog * list eobs * list lobs * list sobs * list robs * list (store * list (cli * store))) : bool :=
+  let '(p, runs, lruns, sruns, rruns, cruns) := c in
   match seq_eval p with
-  | Some s => functionalb (slog s) && forallb (chk_run p s) runs && forallb (chk_lrun p) lruns && forallb (chk_su p) sruns
+  | Some s => functionalb (slog s) && forallb (chk_run p s) runs && forallb (chk_lrun p) lruns && forallb (chk_su p) sruns &&
+              forallb (chk_rrun p) rruns && forallb (fun sc => run_cli p (fst sc) (snd sc)) cruns
   | None => false
   end.
 '''
 INIT_TYPE = 'jprog * list iobs'
-EXEC_TYPE = 'jprog * list eobs * list lobs * list sobs'
+EXEC_TYPE = 'jprog * list eobs * list lobs * list sobs * list robs * list (store * list (cli * store))'
 SLACK = 170                            # Python frames left to jug when a long program is loaded / executed (~4 per link)
 LARGE = 40                             # programs with more results than this get structured store states
 
@@ -324,6 +351,10 @@ class ProgramRun:
         self.lrun_meta = []
         self.su_obs = []
         self.su_meta = []
+        self.rm_obs = []
+        self.rm_meta = []
+        self.cli_obs = []
+        self.cli_meta = []
         sc.write(prog)
 
     def viol(self, what, **kw):
@@ -733,6 +764,275 @@ class ProgramRun:
             backend = 'file' if (rng.random() < 0.15 and not self.large) else 'dict'
             self.one_sleep_until([self.R[i] for i in sorted(have)], writes, backend, root)
 
+    # ------------------------------------------------------------------ results removed under the running worker
+    def users_closure(self):
+        deps = self.deps()
+        users = [[] for _ in deps]
+        for i, ds in enumerate(deps):
+            for j in ds:
+                users[j].append(i)
+
+        def closure(i):
+            got, q = {i}, [i]
+            while q:
+                x = q.pop()
+                for u in users[x]:
+                    if u not in got:
+                        got.add(u)
+                        q.append(u)
+            return got
+        return closure
+
+    def rm_run(self, items, backend, root, at_loads, nwc, rng):
+        """`jug execute` (one store object for the whole run) while ANOTHER process - a second store object on the same
+        data, never the worker's - removes a result and everything computed from it (what jug invalidate does) right
+        before the loads in at_loads (1 = the first).  The markers after barrier()/bvalue() ask a fresh store object."""
+        ck, it = self.ck, self.it
+        store, target = self.prepare(items, backend, root)
+        if backend == 'file':
+            store.close()
+        marks = self.sc.marks
+        closure = self.users_closure()
+        index = dict((h, i) for i, (h, _) in enumerate(self.R))
+        removed, state = {}, {'load': 0}
+
+        def other():
+            return file_store(target) if backend == 'file' else store
+
+        def onload():
+            state['load'] += 1
+            if state['load'] in at_loads:
+                o = other()
+                present = [h for h, _ in self.R if o.can_load(h.encode('ascii'))]
+                if present:
+                    pick = rng.choice(present)
+                    rm = sorted(self.R[i][0] for i in closure(index[pick]) if self.R[i][0] in present)
+                    o.remove_many([h.encode('ascii') for h in rm])
+                    removed[state['load']] = rm
+        state0 = [[h, v] for h, v in items]
+        ctx = dict(start=state0, backend=backend, nwc=nwc, removal={'at_loads': sorted(at_loads)})
+        marks.ONLOAD.append(onload)
+        if backend == 'file':
+            marks.FRESH[:] = [lambda: file_store(target)]
+        try:
+            code, mlog, out = lg.real_execute(self.sc, target, nwc=nwc, slack=self.slack)
+        except lg.HarnessError:
+            raise
+        except lg.ExecTimeout as e:
+            self.viol('jug execute did not finish (the unchanged code needs under 2 s on such a program)', waited=str(e), **ctx)
+            return
+        except Exception as e:
+            self.viol('jug execute raised an exception', exception='%s: %s' % (type(e).__name__, str(e)[:300]), **ctx)
+            return
+        finally:
+            del marks.ONLOAD[:]
+            del marks.FRESH[:]
+        ctx['removed'] = dict((str(k), v) for k, v in sorted(removed.items()))
+        loads = sum(1 for (n, _, _) in mlog if n == lg.TOPMARK)
+        for what, n, d in marker_oracle(mlog):
+            self.viol(what, marker=n, detail=d, during='execute while another process removes results', loads=loads, **ctx)
+        if code != 0:
+            self.viol('jug execute exited with an error after another process removed results', code=code, output=out[-500:], loads=loads, **ctx)
+            ck.count('removal run: error exit')
+            return
+        o = other()
+        final = lg.store_items(o)
+        exp = dict(self.R)
+        top = [it.hash_of_desc[d] for d, _ in self.scope]
+        bad = [k for k in final if k not in exp or final[k] != exp[k]] + [k for k in top if k not in final]
+        if bad:
+            self.viol('jug execute ended with a store different from the sequential evaluation (results were removed on the way)',
+                      keys=sorted(set(bad))[:40], loads=loads, **ctx)
+        rms = [removed.get(k, []) for k in range(1, max(list(removed) + [0]) + 1)]
+        lit = '(%s, [%s], %s, %s)' % (lg.coq_store(items, it), '; '.join('[%s]' % '; '.join(str(it.hash_id(h)) for h in rm) for rm in rms),
+                                      lg.coq_store(sorted(final.items()), it), natlit(loads))
+        self.rm_obs.append(lit)
+        self.rm_meta.append(dict(ctx, final=sorted(final.items()), loads=loads))
+        ck.count('removal run: %s' % ('results removed before a load' if removed else 'no load at which something was to be removed'))
+        ck.count('removal run: backend %s' % backend)
+        ck.distinct((self.term, lit), self.nb > 0)
+
+    def removal_runs(self, rng, root, k):
+        n = len(self.R)
+        if n == 0:
+            return
+        for j in range(k):
+            items = [] if rng.random() < 0.7 else [self.R[i] for i in range(rng.randrange(n + 1))]
+            at = rng.choice([{2}, {2}, {2}, {3}, {2, 3}, {1}])
+            backend = 'file' if (rng.random() < 0.7 and not self.large) else 'dict'
+            self.rm_run(items, backend, root, at, rng.choice([1, 2, 3]), rng)
+
+    # ------------------------------------------------------------------ a project that selects its store itself
+    def cli_run(self, itemsX, itemsD, kind, cmds, root, rng):
+        """The jugfile calls jug.set_jugdir(X) itself (X: another directory, or a store object); every command is run through
+        jug.jug.main(['jug', cmd, jugfile, '--jugdir', D]) with D another directory that may hold stale results of an
+        earlier run.  Every command has to work on X - the store execute writes to and barrier() asks."""
+        import jug.jug
+        ck, it, sc = self.ck, self.it, self.sc
+        X, D = os.path.join(root, 'jdX'), os.path.join(root, 'jdD')
+        shutil.rmtree(X, ignore_errors=True)
+        shutil.rmtree(D, ignore_errors=True)
+        if kind == 'object':
+            sc.marks.XSTORE = dict_store()
+            header = 'import jug\nfrom %s import XSTORE\njug.set_jugdir(XSTORE)\n\n' % lg.MARKMOD
+            openX = lambda: sc.marks.XSTORE
+        else:
+            header = 'import jug\njug.set_jugdir(%r)\n\n' % X
+            openX = lambda: file_store(X)
+        sx = openX()
+        lg.fill_store(sx, itemsX)
+        sd = file_store(D)
+        lg.fill_store(sd, itemsD)
+        keysD = sorted(lg.hx(k) for k in sd.list())
+        sc.write(self.prog, header=header)
+        ctx = dict(start=[[h, v] for h, v in itemsX], stale=[[h, v] for h, v in itemsD], cli={'kind': kind, 'cmds': list(cmds)})
+        steps, metas = [], []
+        try:
+            for k, cmd in enumerate(cmds):
+                before = lg.store_items(openX())
+                # what the project looks like now, loaded by the harness against X
+                r = lg.real_init(sc, openX())
+                loadable = [bool(t.can_load()) for t in r['objs']]
+                complete = (not r['hasbarrier']) and all(loadable)
+                argv = ['jug', cmd if cmd != 'invalidate' else 'invalidate', sc.jugfile, '--jugdir', D]
+                target = None
+                if cmd == 'invalidate':
+                    names = sorted(set(t.name for t in r['objs'] if not t.name.startswith('jug.')))
+                    target = rng.choice(names) if names else 'jvjf.f'
+                    argv += ['--target', target]
+                    bad_ids = set()
+                    for t in r['objs']:                       # creation order: dependencies come first
+                        if t.name == target or any(id(dep) in bad_ids for dep in t.dependencies()):
+                            bad_ids.add(id(t))
+                    want_removed = sorted(set(lg.hx(t.hash()) for t in r['objs'] if id(t) in bad_ids and lg.hx(t.hash()) in before))
+                elif cmd == 'execute':
+                    argv += ['--nr-wait-cycles', '2', '--wait-cycle-time', '0', '--will-cite']
+                elif cmd == 'status':
+                    argv += ['--short']
+                code, outtxt = self.run_main(argv)
+                after = lg.store_items(openX())
+                c2 = dict(ctx, step=k, cmd=cmd, code=code if not isinstance(code, tuple) else list(code))
+                keysD2 = sorted(lg.hx(x) for x in file_store(D).list())
+                if keysD2 != keysD:
+                    self.viol('a command changed the results in the command-line jugdir although the jugfile selects another store',
+                              before=len(keysD), after=len(keysD2), **c2)
+                    keysD = keysD2
+                if cmd == 'check':
+                    if (code == 0) != complete:
+                        self.viol('jug check does not report the state of the store the jugfile uses (exit 0 iff no barrier closed and '
+                                  'every task stored THERE)', hasbarrier=r['hasbarrier'], complete=complete, **c2)
+                    lit = '(CCheck %s, %s)' % (natlit(code if isinstance(code, int) else 99), lg.coq_store(sorted(after.items()), it))
+                elif cmd == 'sleep-until':
+                    exited = code == 0
+                    if exited != complete:
+                        self.viol('jug sleep-until exits / waits against another store than the one the jugfile uses', complete=complete, **c2)
+                    lit = '(CSleepUntil %s, %s)' % (boollit(exited), lg.coq_store(sorted(after.items()), it))
+                elif cmd == 'status':
+                    import re
+                    m = re.search(r'All tasks complete \((\d+) tasks\)', outtxt)
+                    if m:
+                        nc, ni = int(m.group(1)), 0
+                    else:
+                        m = re.search(r'(\d+) tasks waiting to be run, (\d+) failed, (\d+) complete, \((none|\d+) active\)', outtxt)
+                        if not m:
+                            self.viol('jug status printed nothing recognisable', output=outtxt[-300:], **c2)
+                            return
+                        nc, ni = int(m.group(3)), int(m.group(1)) + int(m.group(2)) + (0 if m.group(4) == 'none' else int(m.group(4)))
+                    if (nc, ni) != (sum(loadable), len(loadable) - sum(loadable)):
+                        self.viol('jug status counts are not those of the store the jugfile uses', status=[nc, ni],
+                                  expected=[sum(loadable), len(loadable) - sum(loadable)], **c2)
+                    lit = '(CStatus %s %s, %s)' % (natlit(nc), natlit(ni), lg.coq_store(sorted(after.items()), it))
+                elif cmd == 'execute':
+                    if code != 0:
+                        self.viol('jug execute exited with an error', output=outtxt[-400:], **c2)
+                        return
+                    exp = dict(self.R)
+                    if all(exp.get(h) == v for h, v in before.items()):
+                        top = [it.hash_of_desc[d] for d, _ in self.scope]
+                        bad = [h for h in after if h not in exp or after[h] != exp[h]] + [h for h in top if h not in after]
+                        if bad:
+                            self.viol('jug execute did not leave its results in the store the jugfile selects', keys=sorted(set(bad))[:20], **c2)
+                    lit = '(CExecute, %s)' % lg.coq_store(sorted(after.items()), it)
+                elif cmd == 'cleanup':
+                    keep = set(r['tasks'])
+                    bad = [h for h in before if h in keep and after.get(h) != before[h]] + [h for h in after if h not in keep]
+                    if bad:
+                        self.viol('jug cleanup did not clean the store the jugfile uses (kept exactly the results of loaded tasks)',
+                                  keys=sorted(set(bad))[:20], **c2)
+                    lit = '(CCleanup, %s)' % lg.coq_store(sorted(after.items()), it)
+                else:
+                    got = sorted(h for h in before if h not in after)
+                    if got != want_removed or any(after.get(h) != v for h, v in before.items() if h not in got):
+                        self.viol('jug invalidate did not remove from the store the jugfile uses exactly the results of the named '
+                                  'tasks and of everything computed from them', target=target, removed=got, expected=want_removed, **c2)
+                    lit = '(CInvalidate [%s], %s)' % ('; '.join(str(it.hash_id(h)) for h in want_removed), lg.coq_store(sorted(after.items()), it))
+                if cmd != 'execute' and cmd != 'sleep-until' and isinstance(code, tuple):
+                    self.viol('jug %s raised an exception' % cmd, **c2)
+                    return
+                steps.append(lit)
+                metas.append({'cmd': cmd, 'code': c2['code'], 'target': target, 'store_after': sorted(after.items())})
+                ck.count('project with its own store: jug %s' % cmd)
+        finally:
+            sc.write(self.prog)
+            jugrun.fresh()
+        lit = '(%s, [%s])' % (lg.coq_store(itemsX, it), ';\n   '.join(steps))
+        self.cli_obs.append(lit)
+        self.cli_meta.append(dict(ctx, steps=metas, nwc=2))
+        ck.count('project with its own store: %s, command-line jugdir %s' % (
+            'a store object' if kind == 'object' else 'another directory', 'holds stale results' if itemsD else 'empty'))
+        ck.distinct((self.term, lit), self.nb > 0)
+
+    def run_main(self, argv):
+        """jug.jug.main(argv) in-process -> (exit code | ('raised', ...) | 'waiting', printed output)"""
+        import time
+        import signal
+        import jug.jug
+        from jug.hooks.register import reset_all_hooks
+        del jug.task.alltasks[:]
+        sargv, path = list(sys.argv), list(sys.path)
+        term = signal.getsignal(signal.SIGTERM)
+        orig = time.sleep
+
+        def nosleep(sec):
+            if sec:
+                raise lg.StillWaiting()
+        code = None
+        try:
+            with jugrun.quiet() as (out, err):
+                time.sleep = nosleep
+                try:
+                    with lg.time_limit(lg.EXEC_TIME_LIMIT):
+                        jug.jug.main(list(argv))
+                    code = 0
+                except SystemExit as e:
+                    code = 0 if e.code in (None, 0) else (e.code if isinstance(e.code, int) else 1)
+                except lg.StillWaiting:
+                    code = 'waiting'
+                except Exception as e:
+                    code = ('raised', type(e).__name__, str(e)[:200])
+        finally:
+            time.sleep = orig
+            sys.argv[:] = sargv
+            sys.path[:] = path
+            try:
+                signal.signal(signal.SIGTERM, term)
+            except (ValueError, TypeError):
+                pass
+            reset_all_hooks()
+        return code, out.getvalue() + err.getvalue()
+
+    def cli_runs(self, rng, root, k):
+        n = len(self.R)
+        for j in range(k):
+            r = rng.random()
+            itemsX = [] if r < 0.4 else ([self.R[i] for i in range(rng.randrange(n + 1))] if r < 0.7 else [kv for kv in self.R if rng.random() < 0.5])
+            r = rng.random()
+            itemsD = [] if r < 0.35 else (list(self.R) if r < 0.8 else [kv for kv in self.R if rng.random() < 0.6])
+            cmds = [rng.choice(['check', 'check', 'status', 'sleep-until', 'invalidate', 'cleanup']) for _ in range(rng.choice([1, 2, 2, 3]))]
+            cmds += ['execute'] + [rng.choice(['check', 'status', 'sleep-until', 'invalidate', 'cleanup', 'execute']) for _ in range(rng.choice([2, 3, 4]))]
+            cmds += ['check']
+            self.cli_run(itemsX, itemsD, 'object' if rng.random() < 0.3 else 'directory', cmds, root, rng)
+
     def blocked_runs(self, rng, root, k):
         n = len(self.R)
         if n == 0:
@@ -787,7 +1087,7 @@ def run(ck):
                 elif style == 1:
                     prog = lg.generate(rng, max_tasks=6, max_b=4, max_comp=1, branch_depth=1, barrier_bias=1.8)
                 elif style == 2:
-                    prog = lg.generate(rng, max_tasks=7, max_b=3, max_comp=2, branch_depth=2, compound_bias=0.6)
+                    prog = lg.generate(rng, max_tasks=7, max_b=3, max_comp=2, branch_depth=2, compound_bias=0.6, kw_bias=0.5)
                 else:
                     prog = lg.generate(rng, max_tasks=4, max_b=4, max_comp=0, branch_depth=2, barrier_bias=2.5)
                 progs.append(('gen%d' % i, prog, None))
@@ -803,8 +1103,13 @@ def run(ck):
                 if pr.nb > 0:
                     pr.blocked_runs(rng, root, 2 if name.startswith('gen') else 3)
                 pr.sleep_untils(rng, root, 2 if (pr.nb > 0 or pr.large) else 1)
+                if pr.nb > 0:
+                    pr.removal_runs(rng, root, 2 if not name.startswith('gen') else 1)
+                if not pr.large and (pr.nb > 0 or len(progs) < 40) and rng.random() < (1.0 if not name.startswith('gen') else 0.4):
+                    pr.cli_runs(rng, root, 1)
                 init_cases.append('(%s,\n [%s])' % (pr.term, ';\n  '.join(pr.init_obs)))
-                exec_cases.append('(%s,\n [%s],\n [%s],\n [%s])' % (pr.term, ';\n  '.join(pr.exec_obs), ';\n  '.join(pr.lrun_obs), ';\n  '.join(pr.su_obs)))
+                exec_cases.append(exec_case(pr.term, ';\n  '.join(pr.exec_obs), ';\n  '.join(pr.lrun_obs), ';\n  '.join(pr.su_obs),
+                                            ';\n  '.join(pr.rm_obs), ';\n  '.join(pr.cli_obs)))
                 init_runs.append(pr)
                 exec_runs.append(pr)
                 ck.count('programs')
@@ -825,7 +1130,7 @@ def run(ck):
                 os.environ.pop('HOME', None)
             else:
                 os.environ['HOME'] = home
-    nobs = sum(len(pr.init_obs) + len(pr.exec_obs) + getattr(pr, 'nlruns', 0) + len(pr.su_obs) for pr in init_runs)
+    nobs = sum(len(pr.init_obs) + len(pr.exec_obs) + getattr(pr, 'nlruns', 0) + len(pr.su_obs) + len(pr.rm_obs) + sum(len(m['steps']) for m in pr.cli_meta) for pr in init_runs)
     # long programs: one per shard (their literals are large), the others 12 per shard
     fails = cases_by_size(ck, 'init', INIT_TYPE, 'chk_init', init_cases, init_runs)
     for i in (fails or [])[:3]:
@@ -842,6 +1147,10 @@ def run(ck):
     # barrier()/bvalue(), validated against Model/ExecCase.v bexec_case_ok (harness/execbarrier.py; notes/EXEC_BARRIER_SPEC.md)
     from . import execbarrier
     execbarrier.tie(ck)
+
+
+def exec_case(term, e='', l='', s='', r='', c=''):
+    return '(%s,\n [%s],\n [%s],\n [%s],\n [%s],\n [%s])' % (term, e, l, s, r, c)
 
 
 def cases_by_size(ck, name, typ, chk, cases, runs):
@@ -883,25 +1192,33 @@ def prog_fields(pr):
 
 
 def pin_exec(ck, pr):
-    singles = ['(%s,\n [%s],\n [],\n [])' % (pr.term, o) for o in pr.exec_obs] + \
-              ['(%s,\n [],\n [%s],\n [])' % (pr.term, o) for o in pr.lrun_obs] + \
-              ['(%s,\n [],\n [],\n [%s])' % (pr.term, o) for o in pr.su_obs]
-    metas = [('exec', m) for m in pr.exec_meta] + [('blocked', m) for m in pr.lrun_meta] + [('sleep-until', m) for m in pr.su_meta]
+    singles = [exec_case(pr.term, e=o) for o in pr.exec_obs] + [exec_case(pr.term, l=o) for o in pr.lrun_obs] + \
+              [exec_case(pr.term, s=o) for o in pr.su_obs] + [exec_case(pr.term, r=o) for o in pr.rm_obs] + \
+              [exec_case(pr.term, c=o) for o in pr.cli_obs]
+    metas = [('exec', m) for m in pr.exec_meta] + [('blocked', m) for m in pr.lrun_meta] + [('sleep-until', m) for m in pr.su_meta] + \
+            [('removal', m) for m in pr.rm_meta] + [('cli', m) for m in pr.cli_meta]
     fails = ck.cases('exec_pin', lg.COQ_IMPORTS, EXEC_TYPE, 'chk_exec', singles, shard=100, preamble=PREAMBLE)
     for j in (fails if fails else [0])[:3]:
         kind, m = metas[j]
         o = dict(prog_fields(pr), **{
-            'kind': 'correspondence', 'program': pr.name, 'observed': m if not pr.large else dict(m, final=len(m['final'])),
-            'start': m['start'], 'backend': m['backend'],
+            'kind': 'correspondence', 'program': pr.name, 'observed': m if not (pr.large and 'final' in m) else dict(m, final=len(m['final'])),
+            'start': m['start'], 'backend': m.get('backend', 'file'),
             'nwc': m.get('nwc', 1), 'coq_observation': singles[j][len(pr.term) + 3:] if not pr.large else '(long)'})
         if kind == 'exec':
             o['what'] = 'reload loop: model and jug execute disagree'
         elif kind == 'blocked':
             o['what'] = 'reload loop with tasks this worker cannot run: model and jug execute disagree'
             o['blocked_run'] = {'mode': m['mode'], 'chosen': m['chosen'], 'keep_going': m['keep_going'], 'keep_failed': m['keep_failed']}
-        else:
+        elif kind == 'sleep-until':
             o['what'] = 'jug sleep-until: model (Loader.sleep_until) and SleepUntilCommand disagree'
             o['sleep_until'] = m['sleep_until']
+        elif kind == 'removal':
+            o['what'] = 'reload loop while another process removes results: model (run_phases_rm) and jug execute disagree'
+            o['removal'] = m['removal']
+        else:
+            o['what'] = 'a project that selects its store itself, driven through the command line: model and jug disagree'
+            o['cli'] = m['cli']
+            o['stale'] = m['stale']
         ck.violation(o)
 
 
@@ -929,28 +1246,45 @@ def replay(obj):
             br = obj.get('blocked_run') or ({'mode': obj['mode'], 'chosen': obj['chosen'],
                                              'keep_going': '--keep-going' in obj.get('options', []),
                                              'keep_failed': '--keep-failed' in obj.get('options', [])} if 'mode' in obj else None)
-            if obj.get('sleep_until') is not None:
+            if obj.get('cli') is not None:
+                import random
+                items = [(h, tuplify(v)) for h, v in obj['start']]
+                stale = [(h, tuplify(v)) for h, v in obj.get('stale', [])]
+                pr.cli_run(items, stale, obj['cli']['kind'], obj['cli']['cmds'], root, random.Random(obj.get('seed', 0)))
+                for m in pr.cli_meta[-1:]:
+                    for st in m['steps']:
+                        print(' jug %-11s -> %s   %s' % (st['cmd'] + ((' ' + st['target']) if st['target'] else ''), st['code'],
+                                                     [(pr.it.hash_id(h), v) for h, v in st['store_after']]))
+                cases, typ, chk = [exec_case(pr.term, c=o) for o in pr.cli_obs], EXEC_TYPE, 'chk_exec'
+            elif obj.get('removal') is not None:
+                import random
+                items = [(h, tuplify(v)) for h, v in obj['start']]
+                pr.rm_run(items, obj.get('backend', 'file'), root, set(obj['removal']['at_loads']), obj.get('nwc', 1), random.Random(obj.get('seed', 0)))
+                print('execute from', short([(pr.it.hash_id(h), v) for h, v in items]), 'with removals before loads', obj['removal']['at_loads'], '->',
+                      [dict((k, m[k]) for k in ('loads', 'removed')) for m in pr.rm_meta[-1:]] or 'see the violations')
+                cases, typ, chk = [exec_case(pr.term, r=o) for o in pr.rm_obs], EXEC_TYPE, 'chk_exec'
+            elif obj.get('sleep_until') is not None:
                 items = [(h, tuplify(v)) for h, v in obj['start']]
                 writes = [[(h, tuplify(v)) for h, v in w] for w in obj['sleep_until']['writes']]
                 pr.one_sleep_until(items, writes, obj.get('backend', 'dict'), root)
                 print('sleep-until from', short([(pr.it.hash_id(h), v) for h, v in items]), 'while others write',
                       [[pr.it.hash_id(h) for h, _ in w] if not pr.large else len(w) for w in writes], '->',
                       [dict((k, m[k]) for k in ('status', 'sleeps', 'loads')) for m in pr.su_meta[-1:]] or 'see the violations')
-                cases, typ, chk = ['(%s,\n [],\n [],\n [%s])' % (pr.term, o) for o in pr.su_obs], EXEC_TYPE, 'chk_exec'
+                cases, typ, chk = [exec_case(pr.term, s=o) for o in pr.su_obs], EXEC_TYPE, 'chk_exec'
             elif br is not None:
                 items = [(h, tuplify(v)) for h, v in obj['start']]
                 pr.lrun(items, obj.get('backend', 'dict'), root, br['mode'], br['chosen'], obj.get('nwc', 1),
                         keep_going=br.get('keep_going', True), keep_failed=br.get('keep_failed', False))
                 print('blocked run (%s) from' % br['mode'], short([(pr.it.hash_id(h), v) for h, v in items]), '->',
                       [dict((k, m[k]) for k in ('code', 'raised', 'loads', 'blocked')) for m in pr.lrun_meta[-1:]] or 'see the violations')
-                cases, typ, chk = ['(%s,\n [],\n [%s],\n [])' % (pr.term, o) for o in pr.lrun_obs], EXEC_TYPE, 'chk_exec'
+                cases, typ, chk = [exec_case(pr.term, l=o) for o in pr.lrun_obs], EXEC_TYPE, 'chk_exec'
             elif 'start' in obj:
                 items = [(h, tuplify(v)) for h, v in obj['start']]
                 agrees = all(dict(pr.R).get(h) == v for h, v in items)
                 pr.one_exec(items, obj.get('backend', 'dict'), root, agrees, nwc=obj.get('nwc', 1))
                 print('execute from', short([(pr.it.hash_id(h), v) for h, v in items]), '->',
                       [dict((k, (m[k] if k != 'final' else short(m[k]))) for k in ('loads', 'final', 'nwc')) for m in pr.exec_meta[-1:]] or 'failed')
-                cases, typ, chk = ['(%s,\n [%s],\n [],\n [])' % (pr.term, o) for o in pr.exec_obs], EXEC_TYPE, 'chk_exec'
+                cases, typ, chk = [exec_case(pr.term, e=o) for o in pr.exec_obs], EXEC_TYPE, 'chk_exec'
             else:
                 items = [(h, tuplify(v)) for h, v in obj.get('store', [])]
                 pr.one_state(items, obj.get('backend', 'dict'), root)
@@ -967,7 +1301,7 @@ def replay(obj):
                 os.environ['HOME'] = home
     if ck.found:
         for o in ck.found:
-            print('VIOLATED on the real code:', o.get('what'), dict((k, o[k]) for k in ('marker', 'detail', 'code', 'loadable', 'raised', 'keys', 'locks_after', 'loads', 'sleeps', 'hasbarrier', 'check', 'without_result') if k in o))
+            print('VIOLATED on the real code:', o.get('what'), dict((k, o[k]) for k in ('marker', 'detail', 'code', 'loadable', 'raised', 'keys', 'locks_after', 'loads', 'sleeps', 'hasbarrier', 'check', 'without_result', 'cmd', 'step', 'complete', 'status', 'expected', 'removed', 'target') if k in o))
         rc = 1
     mrc, out = core.make(['Model/Loader.vo'])
     fails = ck.cases('replay', lg.COQ_IMPORTS, typ, chk, cases, preamble=PREAMBLE) if (mrc == 0 and cases) else None
